@@ -288,6 +288,34 @@ def ob_equivocation(run, oid):
                             {"flagged_on": sorted(names) if names else None, "guards": K.show_atoms(prog, fb, c.bb)[:5]})
 
 
+def ob_door_equivocation_reported(run, oid):
+    """the validation door of the dissemination path sees a conflicting commitment before the blockstore does: it has to report it"""
+    prog = run.program("lib")
+    o = run.ob(oid, "handle_disseminator_shred flags the leader exactly when ValidatedShred::try_new answers Equivocation (a second validly signed commitment for a cached slice)",
+               "the cached commitment is consulted before the blockstore sees the shred, so the blockstore's own equivocation check never fires on this path: if the door only drops "
+               "the shred, a leader signing two versions of a slice is never reported; if it flagged on InvalidSignature too, anyone could get a correct leader flagged", floor=2)
+    fam = [b for b in prog.family(A + "consensus::Alpenglow::handle_disseminator_shred") if b.is_closure]
+    if not fam:
+        o.missing("Alpenglow::handle_disseminator_shred")
+        return o
+    n = 0
+    for b in fam:
+        for c in b.calls():
+            if not c.name.endswith("flag_leader_misbehavior"):
+                continue
+            n += 1
+            names = None
+            for a in G.guard_atoms(b, c.bb, prog):
+                if a[0] == "variant" and K.mentions_call(a[1][0], "ValidatedShred::try_new") and a[1][1] <= {"Equivocation", "InvalidSignature"}:
+                    names = set(a[1][1]) if names is None else names & a[1][1]
+            o.check(names == {"Equivocation"}, "handle_disseminator_shred|flag|exactly-on-equivocation", "flag_leader_misbehavior is called on try_new's Equivocation verdict only", c.span, {"on": sorted(names) if names else None})
+            slot_ok = len(c.args) >= 2 and K.mentions_field(b.operand_term(c.args[1]), "slot")
+            o.check(slot_ok, "handle_disseminator_shred|flag|shreds-slot", "for the shred's own slot", c.span)
+    if n == 0:
+        o.fail("handle_disseminator_shred|flag|missing", "try_new's Equivocation verdict is dropped without flagging the leader", fam[0].span)
+    return o
+
+
 def ob_layout(run, oid):
     prog = run.program("lib")
     o = run.ob(oid, "ValidatedShreds::try_new: kind must match index, sizes equal and even, before decoding",
@@ -408,6 +436,8 @@ def check(run):
     from . import C11 as _C11
     _C11.ob_validated_set(run, "O12.10")
     C13.ob_error_mapping(run, "O12.11")
+    ob_door_equivocation_reported(run, "O12.14")
+    C13.ob_flag_callers(run, "O12.16")
     # a correct leader is never flagged: the blockstore's own bookkeeping of slices may refuse a reconstructed slice for the reviewed reasons only
     # (mutation map of BlockData / SlotBlockData), and the decoder of a slice's transactions admits everything a slice can carry
     D.ob_state_mutations(run, "O12.12", ['consensus::blockstore::slot_block_data::BlockData', 'consensus::blockstore::slot_block_data::SlotBlockData'],
